@@ -206,6 +206,10 @@ def dfsr_record(d):
     blocks += [entry_block(12, 68, d.get('absent', -999.25)), entry_block(13, 66, 1 if d['indirect'] else 0)]
     if d['indirect']:
         blocks += [entry_block(14, 65, _fix(d['units'], 4)), entry_block(15, 66, d['xrc'])]
+    elif d.get('full_blocks'):
+        # writers that emit the whole entry block set whatever the recording mode: the depth units and depth representation code
+        # (blocks 14, 15) of an explicit-X file are noise, the X axis is channel 0
+        blocks += [entry_block(14, 65, _fix(d['full_blocks'][0], 4)), entry_block(15, 66, d['full_blocks'][1])]
     blocks += [entry_block(16, 66, 0)]
     n = sum(len(b) for b in blocks) + 3
     blocks.append(bytes([0, 1, 66, 0]) if n % 2 else bytes([0, 0, 66]))
@@ -399,6 +403,8 @@ def gen_file(rng, fi, max_frames=40, names_pool=None):
          'absent': -999.25, 'channels': channels, 'always_spacing': rng.chance(0.5)}
     if indirect and d['xrc'] == 73:
         d['spacing'] = float(rng.pick([1, 2, 6, 60]))
+    if not indirect and rng.chance(0.3):
+        d['full_blocks'] = [rng.pick(['.1IN', 'FEET', 'M   ', 'S   ']), rng.pick([68, 73, 79, 56, 49, 70])]
     if indirect and rng.chance(0.3):
         # the spacing is declared in other units than the X axis (inches on a tenth-of-an-inch axis, microseconds on a millisecond
         # axis): the spacing in X units may then be fractional even where X itself is recorded as an integer
